@@ -573,7 +573,7 @@ class SdrFruDeviceLocator(SdrCommon):
         self.device_access_address = buffer.pop_unsigned_int(1) >> 1
         self.fru_device_id = buffer.pop_unsigned_int(1)
         self.logical_physical = buffer.pop_unsigned_int(1)
-        self.channel_number = buffer.pop_unsigned_int(1)
+        self.channel_number = buffer.pop_unsigned_int(1) >> 4
         self.reserved = buffer.pop_unsigned_int(1)
         self.device_type = buffer.pop_unsigned_int(1)
         self.device_type_modifier = buffer.pop_unsigned_int(1)
@@ -621,7 +621,9 @@ class SdrManagementControllerConfirmationRecord(SdrCommon):
         buffer = ByteBuffer(data[5:])
         self.device_slave_address = buffer.pop_unsigned_int(1) >> 1
         self.device_id = buffer.pop_unsigned_int(1)
-        self.channel_number = buffer.pop_unsigned_int(1)
+        channel_revision = buffer.pop_unsigned_int(1)
+        self.channel_number = channel_revision >> 4
+        self.device_revision = channel_revision & 0xf
         self.firmware_revision_1 = buffer.pop_unsigned_int(1)
         self.firmware_revision_2 = buffer.pop_unsigned_int(1)
         self.ipmi_version = buffer.pop_unsigned_int(1)
